@@ -87,14 +87,38 @@ SIGNATURES = {
     'flatten_comparator': ([('operator', 'opstr'), ('x', 'bits'),
                             ('y', 'bits'), ('mem', 'bits')], 'buf'),
 }
+# the leaf layer: strings are Python strings (names, digits), not formulas
+LEAF_SIGNATURES = {
+    'twos_complement_to_int': ([('bits', 'strs')], 'int'),
+    'int_to_twos_complement': ([('s', 'pystr')], 'strs'),
+    '_assert_var_in_table': ([('name', 'pystr'), ('t', 'opttable')], 'unit'),
+    '_append_sign_bit': ([('bits', 'strs'), ('var', 'pystr'),
+                          ('d', 'hint')], 'unit'),
+    'var_to_twos_complement': ([('var', 'pystr'), ('t', 'opttable')],
+                               'strs'),
+    '_is_bool_var': ([('name', 'pystr'), ('t', 'opttable')], 'bool'),
+}
+SIGNATURES.update(LEAF_SIGNATURES)
 ORDER = list(SIGNATURES)
+HINT_KEYS = {'type': ('h_type', 'pystr', False),
+             'bitnames': ('h_bitnames', 'strs', True),
+             'signed': ('h_signed', 'bool', True),
+             'dom': ('h_dom', ('int', 'int'), True)}
 
 COQ_TYPE = {'bit': 'bx', 'bits': 'list bx', 'int': 'Z', 'optint': 'option Z',
             'bool': 'bool', 'opstr': 'string', 'buf': 'fbuf',
             'joined': 'list bx', 'unit': 'unit', 'node': 'pnode',
             'nodes': 'list pnode', 'fres': 'fres',
             'optbits': 'option (list bx)', 'none': 'option (list bx)',
-            'kwargs': 'kwargs', 'open2': 'bx -> bx -> bx'}
+            'kwargs': 'kwargs defs', 'open2': 'bx -> bx -> bx',
+            'pystr': 'string', 'strs': 'list string', 'ints': 'list Z',
+            'optbool': 'option bool', 'table': 'table',
+            'opttable': 'option table', 'hint': 'hint', 'defs': 'defs',
+            'optdefs': 'option defs', 'form': 'px'}
+ELT = {'bits': 'bit', 'strs': 'pystr', 'ints': 'int'}
+LISTOF = {v: k for k, v in ELT.items()}
+OPTS = {'optint': 'int', 'optbits': 'bits', 'opttable': 'table',
+        'optdefs': 'defs'}
 LIST_KINDS = ('bits',)
 RESERVED = {
     'repeat', 'length', 'map', 'combine', 'last', 'fst', 'snd', 'app',
@@ -123,6 +147,9 @@ TEMPLATES = [
     ('$ N {s}', 'FBuf N s', 'buffer whose cells are s = " ".join(<bits>)'),
     ('P = a literal that lacks its last two operands, e.g. "! ^"',
      'fun a b => P a b', 'operator prefix kept in a variable'),
+    ('{op} A1 .. An with op a str (a value of Nodes.opmap)',
+     'py_apply_prefix op [A1; ..; An]', 'operator prefix known only at run '
+     'time, applied to flatten results read as formulas (px_of_fres)'),
     ('{f} A B', 'f A B', 'a hole holding an operator prefix, applied to the '
      'two formulas after it'),
     ('" ".join(T for .. in ..) + " " + E', 'fold_right (fun .. acc => T acc) '
@@ -194,6 +221,9 @@ def unify(a, b):
         return 'optint'
     if {a, b} <= {'bits', 'none', 'optbits'}:
         return 'optbits'
+    for o, base in OPTS.items():
+        if {a, b} == {o, base}:
+            return o
     raise Refuse(f'kinds {a} and {b} do not unify')
 
 
@@ -202,13 +232,13 @@ def coerce(text, have, want):
         return text
     if have == 'int' and want == 'optint':
         return f'(Some {text})'
-    if have == 'bits' and want == 'optbits':
+    if OPTS.get(want) == have:
         return f'(Some {text})'
     if have == 'none' and want == 'optbits':
         return 'None'
-    if want == 'fres' and have in ('bits', 'bit', 'buf'):
+    if want == 'fres' and have in ('bits', 'bit', 'buf', 'form'):
         return '(%s %s)' % ({'bits': 'RBits', 'bit': 'RStr',
-                             'buf': 'RBuf'}[have], text)
+                             'buf': 'RBuf', 'form': 'RForm'}[have], text)
     if isinstance(have, tuple) and isinstance(want, tuple) \
             and len(have) == len(want):
         raise Refuse('coercion inside a tuple')
@@ -339,11 +369,25 @@ class Translator:
         self.used_templates = []
         self.method = None
         self.open2_mode = False
+        self.strmode = False
+        self.opaque_name = 'ext_flatten'
+        self.used_opmap = False
+        self.prime_const = None
         self.opaque_lines = []
         self.with_methods = True
         self.used_consts = []
         self.done = []
         self.wanted = list(wanted or ORDER)
+        import os
+        sp = os.path.join(os.path.dirname(path), 'syntax.py')
+        if os.path.exists(sp):
+            with open(sp) as f2:
+                for n in ast.parse(f2.read()).body:
+                    if isinstance(n, ast.Assign) and len(n.targets) == 1 and \
+                            getattr(n.targets[0], 'id', None) == 'PRIME' and \
+                            isinstance(n.value, ast.Constant) and \
+                            isinstance(n.value.value, str):
+                        self.prime_const = n.value.value
         for n in self.tree.body:
             if isinstance(n, ast.Assign) and len(n.targets) == 1 and \
                     isinstance(n.targets[0], ast.Name) and \
@@ -527,6 +571,9 @@ class Translator:
             nm = _call_name(e)
             if nm == 'list':
                 return True
+            if isinstance(e.func, ast.Attribute) and e.func.attr in (
+                    'zfill', 'lstrip', 'lower'):
+                return True     # a str: immutable
             if nm in self.fns:
                 fr = self.fresh_ret[nm]
                 return len(fr) == 1 and fr[0]
@@ -651,7 +698,8 @@ class Translator:
                         raise Refuse(f'{fn.name}: argument for the mutated '
                                      f'parameter {pname} in {_src(n)}')
             elif isinstance(n, ast.Call) and _call_name(n) not in (
-                    'len', 'enumerate', 'zip', '_format_mem', 'isinstance') and \
+                    'len', 'enumerate', 'zip', '_format_mem', 'isinstance',
+                    'reversed', 'list') and \
                     _call_name(n) not in SKIP_CALLS:
                 for a in list(n.args) + [k.value for k in n.keywords]:
                     if isinstance(a, ast.Name) and a.id in mutated and not (
@@ -672,8 +720,18 @@ class Translator:
     def expr(self, e, env, binds):
         """(Gallina text, kind); exceptions the expression may raise are
         appended to `binds` in evaluation order."""
+        if isinstance(e, ast.Call) and isinstance(e.func, ast.Attribute) and \
+                e.func.attr == 'format' and \
+                isinstance(e.func.value, ast.Constant) and \
+                isinstance(e.func.value.value, str) and not e.args:
+            return self.template(self.format_to_fstring(e), env, binds)
+        r = self.leaf_expr(e, env, binds)
+        if r is not None:
+            return r
         if isinstance(e, ast.Constant):
             v = e.value
+            if isinstance(v, str) and self.strmode:
+                return self.slit(v), 'pystr'
             if type(v) is bool:
                 return ('true' if v else 'false'), 'bool'
             if type(v) is int:
@@ -683,6 +741,22 @@ class Translator:
             if isinstance(v, str):
                 return self.template(e, env, binds)
             raise Refuse(f'constant {v!r}')
+        if isinstance(e, ast.JoinedStr) and self.strmode:
+            parts = []
+            for part in e.values:
+                if isinstance(part, ast.Constant):
+                    parts.append(self.slit(part.value))
+                elif isinstance(part, ast.FormattedValue) and \
+                        part.conversion == -1 and part.format_spec is None:
+                    t, k = self.expr(part.value, env, binds)
+                    if k != 'pystr':
+                        raise Refuse(f'{_src(part.value)} of kind {k} in '
+                                     'the string ' + _src(e))
+                    parts.append(t)
+                else:
+                    raise Refuse('f-string ' + _src(e))
+            self.use_template('{a}{b} (names)')
+            return '(' + ' ++ '.join(parts) + ')%string', 'pystr'
         if isinstance(e, ast.JoinedStr):
             return self.template(e, env, binds)
         if isinstance(e, ast.Attribute) and self.method and \
@@ -691,6 +765,8 @@ class Translator:
                 return 's_operator', 'opstr'
             if e.attr == 'operands':
                 return 's_operands', 'nodes'
+            if e.attr == 'value':
+                return 's_operator', 'pystr'
             raise Refuse('attribute ' + _src(e))
         if isinstance(e, ast.Name):
             if e.id in env:
@@ -701,13 +777,17 @@ class Translator:
                 return f'g_{e.id}', 'int'
             raise Refuse(f'unknown name {e.id}')
         if isinstance(e, ast.List):
-            items = []
+            items, kinds = [], set()
             for x in e.elts:
                 t, k = self.expr(x, env, binds)
-                if k != 'bit':
+                if k not in LISTOF:
                     raise Refuse('list element of kind ' + str(k))
                 items.append(t)
-            return '[' + '; '.join(items) + ']', 'bits'
+                kinds.add(k)
+            if len(kinds) > 1:
+                raise Refuse('list of mixed kinds ' + _src(e))
+            k = kinds.pop() if kinds else ('pystr' if self.strmode else 'bit')
+            return '[' + '; '.join(items) + ']', LISTOF[k]
         if isinstance(e, ast.Tuple):
             parts = [self.expr(x, env, binds) for x in e.elts]
             return tup([t for t, _ in parts]), tuple(k for _, k in parts)
@@ -722,17 +802,32 @@ class Translator:
         if isinstance(e, ast.BoolOp):
             op = 'andb' if isinstance(e.op, ast.And) else 'orb'
             parts = []
+            monadic = False
             for i, x in enumerate(e.values):
                 b2 = []
-                parts.append(self.as_bool(x, env, b2))
+                parts.append((self.as_bool(x, dict(env) if i else env, b2),
+                              b2))
                 if b2 and i > 0:
-                    raise Refuse('operand of and/or that may raise: '
-                                 + _src(x))
-                binds.extend(b2)
-            t = parts[-1]
-            for p in reversed(parts[:-1]):
-                t = f'({op} {p} {t})'
-            return t, 'bool'
+                    monadic = True
+                elif i == 0:
+                    binds.extend(b2)
+                    parts[-1] = (parts[-1][0], [])
+            if not monadic:
+                t = parts[-1][0]
+                for p, _ in reversed(parts[:-1]):
+                    t = f'({op} {p} {t})'
+                return t, 'bool'
+            # short circuit: a later operand is evaluated (and may raise)
+            # only when the earlier ones do not decide
+            t = wrap(parts[-1][1], f'Some {parts[-1][0]}')
+            for p, b2 in reversed(parts[:-1]):
+                inner = (f'if {p} then\n{ind(t)}\nelse Some false'
+                         if op == 'andb' else
+                         f'if {p} then Some true else\n{ind(t)}')
+                t = wrap(b2, inner)
+            v = self.fresh()
+            binds.append(('bind', v, f'(\n{ind(t)})'))
+            return v, 'bool'
         if isinstance(e, ast.Compare):
             return self.compare(e, env, binds)
         if isinstance(e, ast.BinOp):
@@ -756,6 +851,149 @@ class Translator:
             return self.call(e, env, binds)
         raise Refuse(f'expression {_src(e)}')
 
+    @staticmethod
+    def format_to_fstring(e):
+        """'.. {k} ..'.format(k=v, ...) as the f-string '.. {v} ..'
+        (keyword arguments are evaluated in the order written; each must be
+        used exactly once and in that order)."""
+        import re
+        text = e.func.value.value
+        kws = {k.arg: k.value for k in e.keywords}
+        if None in kws:
+            raise Refuse('format(**..)')
+        parts, order = [], []
+        pos = 0
+        for m in re.finditer(r'\{(\w*)\}', text):
+            if m.start() > pos:
+                parts.append(ast.Constant(value=text[pos:m.start()]))
+            if m.group(1) not in kws:
+                raise Refuse('format field ' + m.group(0))
+            parts.append(ast.FormattedValue(value=kws[m.group(1)],
+                                            conversion=-1, format_spec=None))
+            order.append(m.group(1))
+            pos = m.end()
+        if pos < len(text):
+            parts.append(ast.Constant(value=text[pos:]))
+        if '{' in text.replace('{', '', len(order)) or \
+                order != [k.arg for k in e.keywords]:
+            raise Refuse('format string ' + _src(e))
+        return ast.JoinedStr(values=parts)
+
+    def leaf_expr(self, e, env, binds):
+        """Expressions of the leaf layer (numerals, names, tables); None
+        when e is none of them."""
+        if isinstance(e, ast.Attribute) and isinstance(e.value, ast.Name):
+            if (e.value.id, e.attr) == ('stx', 'PRIME'):
+                if self.prime_const is None:
+                    raise Refuse('stx.PRIME not found in syntax.py')
+                return 'g_PRIME', 'pystr'
+            return None
+        if isinstance(e, ast.BinOp) and isinstance(e.op, ast.Pow):
+            b = self.as_int(e.left, env, binds)
+            x = self.as_int(e.right, env, binds)
+            v = self.fresh()
+            binds.append(('bind', v, f'py_pow {b} {x}'))
+            return v, 'int'
+        if isinstance(e, ast.Subscript):
+            # Nodes.opmap[key]
+            if isinstance(e.value, ast.Attribute) and \
+                    isinstance(e.value.value, ast.Name) and \
+                    (e.value.value.id, e.value.attr) == ('Nodes', 'opmap'):
+                key, k = self.expr(e.slice, env, binds)
+                if k not in ('pystr', 'opstr'):
+                    raise Refuse('opmap key ' + _src(e))
+                self.used_opmap = True
+                v = self.fresh()
+                binds.append(('bind', v, f'dict_get g_opmap {key}'))
+                return v, 'pystr'
+            # s.rsplit('_', 1)[0]
+            c = e.value
+            if isinstance(c, ast.Call) and isinstance(c.func, ast.Attribute) \
+                    and c.func.attr == 'rsplit' and len(c.args) == 2 and \
+                    isinstance(c.args[0], ast.Constant) and \
+                    isinstance(c.args[0].value, str) and \
+                    len(c.args[0].value) == 1 and \
+                    isinstance(c.args[1], ast.Constant) and \
+                    c.args[1].value == 1 and \
+                    isinstance(e.slice, ast.Constant) and e.slice.value == 0:
+                t, k = self.expr(c.func.value, env, binds)
+                if k != 'pystr':
+                    raise Refuse('rsplit of a ' + str(k))
+                ch = c.args[0].value
+                return f'(py_rsplit1 "{ch}"%char {t})', 'pystr'
+            return None
+        if not isinstance(e, ast.Call):
+            return None
+        nm = _call_name(e)
+        f = e.func
+        if isinstance(f, ast.Attribute) and f.attr == 'isdigit' and \
+                not e.args and not e.keywords and \
+                isinstance(f.value, ast.Subscript) and \
+                isinstance(f.value.slice, ast.Constant) and \
+                f.value.slice.value == 0:
+            t, k = self.expr(f.value.value, env, binds)
+            if k != 'pystr':
+                raise Refuse('isdigit on a ' + str(k))
+            v = self.fresh()
+            binds.append(('bind', v, f'py_first_isdigit {t}'))
+            return v, 'bool'
+        if nm == 'int' and len(e.args) == 1 and not e.keywords:
+            t, k = self.expr(e.args[0], env, binds)
+            if k == 'int':
+                return t, 'int'
+            if k != 'pystr':
+                raise Refuse(f'int of a {k}')
+            v = self.fresh()
+            binds.append(('bind', v, f'py_int {t}'))
+            return v, 'int'
+        if nm == 'bin' and len(e.args) == 1 and not e.keywords:
+            return f'(py_bin {self.as_int(e.args[0], env, binds)})', 'pystr'
+        if nm == 'sum' and len(e.args) == 1 and not e.keywords and \
+                isinstance(e.args[0], (ast.GeneratorExp, ast.ListComp)):
+            t, k = self.listcomp(e.args[0], env, binds)
+            if k != 'ints':
+                raise Refuse('sum of ' + str(k))
+            return f'(py_sum {t})', 'int'
+        if nm == 'list' and len(e.args) == 1 and not e.keywords:
+            a = e.args[0]
+            if isinstance(a, ast.Call) and _call_name(a) == 'reversed' and \
+                    len(a.args) == 1:
+                t, k = self.expr(a.args[0], env, binds)
+                if k == 'pystr':
+                    return f'(rev (py_chars {t}))', 'strs'
+                if k in ELT:
+                    return f'(rev {t})', k
+                raise Refuse('reversed of a ' + str(k))
+            t, k = self.expr(a, env, binds)
+            if k in ELT:
+                return t, k          # a copy: lists are values here
+            raise Refuse('list of a ' + str(k))
+        if isinstance(f, ast.Attribute) and not e.keywords:
+            if f.attr == 'bit_length' and not e.args:
+                return (f'(py_bit_length '
+                        f'{self.as_int(f.value, env, binds)})'), 'int'
+            if f.attr in ('lstrip', 'zfill', 'lower', 'isdigit'):
+                t, k = self.expr(f.value, env, binds)
+                if k != 'pystr':
+                    raise Refuse(f'{f.attr} of a {k}')
+                if f.attr == 'lstrip' and len(e.args) == 1 and \
+                        isinstance(e.args[0], ast.Constant) and \
+                        isinstance(e.args[0].value, str):
+                    return (f'(py_lstrip {self.slit(e.args[0].value)} '
+                            f'{t})'), 'pystr'
+                if f.attr == 'zfill' and len(e.args) == 1:
+                    m = self.as_int(e.args[0], env, binds)
+                    return f'(py_zfill {m} {t})', 'pystr'
+                if f.attr == 'lower' and not e.args:
+                    return f'(py_lower {t})', 'pystr'
+                if f.attr == 'isdigit' and not e.args and \
+                        isinstance(f.value, ast.Subscript) and \
+                        isinstance(f.value.slice, ast.Constant) and \
+                        f.value.slice.value == 0:
+                    raise Refuse('isdigit')   # handled below on the string
+                raise Refuse('string method ' + _src(e))
+        return None
+
     def as_int(self, e, env, binds):
         t, k = self.expr(e, env, binds)
         if k == 'int':
@@ -775,6 +1013,8 @@ class Translator:
         t, k = self.expr(e, env, binds)
         if k == 'bool':
             return t
+        if k == 'optbool':
+            return f'(py_truth {t})'
         raise Refuse(f'{_src(e)} is a {k}; truth values of other kinds '
                      'are not translated')
 
@@ -794,13 +1034,21 @@ class Translator:
             binds.append(('bind', v, f'match {t} with {ctor} x_ => Some x_ '
                           f'| _ => None end'))
             return v
-        if k == 'optbits' and kind == 'bits':
+        if k in OPTS and OPTS[k] == kind and k != 'optint':
             if isinstance(e, ast.Name):
                 binds.append(('bind', self.cname(e.id), t))
-                env[e.id] = 'bits'
+                env[e.id] = kind
                 return self.cname(e.id)
             v = self.fresh()
             binds.append(('bind', v, t))
+            return v
+        if k == 'strs' and kind == 'bits':
+            v = self.fresh()
+            binds.append(('bind', v, f'py_mapM (py_token var_id) {t}'))
+            return v
+        if k == 'pystr' and kind == 'bit':
+            v = self.fresh()
+            binds.append(('bind', v, f'py_token var_id {t}'))
             return v
         if k == 'none' and kind == 'bits':
             binds.append(('guard', 'false'))
@@ -815,7 +1063,8 @@ class Translator:
                     and operands[1].value is None):
                 raise Refuse('`is` other than `is None`: ' + _src(e))
             t, k = self.expr(operands[0], env, binds)
-            if k not in ('optint', 'optbits', 'none', 'bits'):
+            if k not in ('optint', 'optbits', 'none', 'bits', 'optbool',
+                         'opttable', 'optdefs'):
                 raise Refuse(f'`{_src(e)}`: operand of kind {k}')
             r = f'(match {t} with None => true | Some _ => false end)'
             if k == 'none':
@@ -831,6 +1080,9 @@ class Translator:
                 operands[0], (ast.Name, ast.Attribute)) else (None, None)
             if k0 == 'opstr':
                 return self.opstr_compare(e, t0), 'bool'
+            r = self.leaf_compare(e, env, binds)
+            if r is not None:
+                return r, 'bool'
         texts = []
         kinds = []
         for x in operands:
@@ -858,6 +1110,50 @@ class Translator:
         for p in reversed(parts[:-1]):
             t = f'(andb {p} {t})'
         return t, 'bool'
+
+    def leaf_compare(self, e, env, binds):
+        op, lhs, rhs = e.ops[0], e.left, e.comparators[0]
+        neg = isinstance(op, (ast.NotEq, ast.NotIn))
+        wrapn = (lambda t: f'(negb {t})') if neg else (lambda t: t)
+        if isinstance(op, (ast.In, ast.NotIn)):
+            # 'key' in <hint>
+            if isinstance(lhs, ast.Constant) and lhs.value in HINT_KEYS:
+                b2 = []
+                t, k = self.expr(rhs, env, b2)
+                if k == 'hint':
+                    binds.extend(b2)
+                    fld, _, opt = HINT_KEYS[lhs.value]
+                    if not opt:
+                        return wrapn('true')
+                    return wrapn(f'(match {fld} {t} with Some _ => true '
+                                 f'| None => false end)')
+                return None
+            b2 = []
+            a, ka = self.expr(lhs, env, b2)
+            if ka != 'pystr':
+                return None
+            binds.extend(b2)
+            c, kc = self.expr(rhs, env, binds)
+            if kc in ('table', 'opttable'):
+                c = self.convert(c, kc, 'table', rhs, env, binds)
+                return wrapn(f'(dict_mem {c} {a})')
+            if kc in ('defs', 'optdefs'):
+                c = self.convert(c, kc, 'defs', rhs, env, binds)
+                return wrapn(f'(defs_mem {c} {a})')
+            if kc == 'strs':
+                return wrapn(f'(str_mem {a} {c})')
+            raise Refuse(f'membership in a {kc}: {_src(e)}')
+        if isinstance(op, (ast.Eq, ast.NotEq)):
+            b2 = []
+            a, ka = self.expr(lhs, env, b2)
+            if ka != 'pystr':
+                return None
+            binds.extend(b2)
+            c, kc = self.expr(rhs, env, binds)
+            if kc != 'pystr':
+                raise Refuse(f'== between str and {kc}: {_src(e)}')
+            return wrapn(f'(String.eqb {a} {c})')
+        return None
 
     def cmp1(self, op, a, ka, b, kb, e, env, binds):
         if isinstance(op, (ast.Eq, ast.NotEq)):
@@ -931,8 +1227,8 @@ class Translator:
             if type(e.op) not in sym:
                 raise Refuse('integer operator in ' + _src(e))
             return f'({a} {sym[type(e.op)]} {b})', 'int'
-        if isinstance(e.op, ast.Add) and ka == 'bits' and kb == 'bits':
-            return f'({a} ++ {b})', 'bits'
+        if isinstance(e.op, ast.Add) and ka == kb and ka in ELT:
+            return f'({a} ++ {b})', ka
         if isinstance(e.op, ast.Mult) and (ka, kb) == ('int', 'bits'):
             return f'(py_repeat {a} {b})', 'bits'
         if isinstance(e.op, ast.Mult) and (ka, kb) == ('bits', 'int'):
@@ -946,7 +1242,23 @@ class Translator:
             v = self.fresh()
             binds.append(('bind', v, f'py_index {t} {i}'))
             return v, 'node'
-        if k != 'bits':
+        if k == 'hint' and isinstance(e.slice, ast.Constant) and \
+                e.slice.value in HINT_KEYS:
+            fld, fk, opt = HINT_KEYS[e.slice.value]
+            if not opt:
+                return f'({fld} {t})', fk
+            v = self.fresh()
+            binds.append(('bind', v, f'{fld} {t}'))
+            return v, fk
+        if k in ('table', 'opttable') and not isinstance(e.slice, ast.Slice):
+            t = self.convert(t, k, 'table', e.value, env, binds)
+            key, kk = self.expr(e.slice, env, binds)
+            if kk != 'pystr':
+                raise Refuse('table key ' + _src(e))
+            v = self.fresh()
+            binds.append(('bind', v, f'dict_get {t} {key}'))
+            return v, 'hint'
+        if k not in ELT:
             raise Refuse(f'subscript of a {k}: {_src(e)}')
         s = e.slice
         if isinstance(s, ast.Slice):
@@ -954,15 +1266,15 @@ class Translator:
                 raise Refuse('slice step in ' + _src(e))
             if s.lower is None and s.upper is not None:
                 n = self.as_int(s.upper, env, binds)
-                return f'(py_slice_to {t} {n})', 'bits'
+                return f'(py_slice_to {t} {n})', k
             if s.upper is None and s.lower is not None:
                 n = self.as_int(s.lower, env, binds)
-                return f'(py_slice_from {t} {n})', 'bits'
+                return f'(py_slice_from {t} {n})', k
             raise Refuse('slice form ' + _src(e))
         i = self.as_int(s, env, binds)
         v = self.fresh()
         binds.append(('bind', v, f'py_index {t} {i}'))
-        return v, 'bit'
+        return v, ELT[k]
 
     def iter_source(self, it, env, binds):
         """(Gallina list, element kind) of a for/comprehension iterable."""
@@ -976,9 +1288,9 @@ class Translator:
             b, kb = self.iter_source(it.args[1], env, binds)
             return f'(combine {a} {b})', (ka, kb)
         t, k = self.expr(it, env, binds)
-        if k != 'bits':
+        if k not in ELT:
             raise Refuse(f'iteration over a {k}: {_src(it)}')
-        return t, 'bit'
+        return t, ELT[k]
 
     def target_pattern(self, tgt, kind, env):
         """Gallina pattern for a for/comprehension target; extends env."""
@@ -1005,23 +1317,23 @@ class Translator:
         pat = self.target_pattern(g.target, ek, env2)
         b2 = []
         t, k = self.expr(e.elt, env2, b2)
-        if k != 'bit':
+        if k not in LISTOF:
             raise Refuse(f'comprehension of kind {k}: {_src(e)}')
         if not b2:
             return f"(map (fun '{pat} => {t}) {src})" if pat[0] == '(' \
-                else f'(map (fun {pat} => {t}) {src})', 'bits'
+                else f'(map (fun {pat} => {t}) {src})', LISTOF[k]
         body = wrap(b2, f'Some {t}')
         fp = f"'{pat}" if pat[0] == '(' else pat
         v = self.fresh()
         binds.append(('bind', v,
                       f'py_mapM (fun {fp} =>\n{ind(body)}) {src}'))
-        return v, 'bits'
+        return v, LISTOF[k]
 
     def call(self, e, env, binds, targets=None):
         nm = _call_name(e)
         if nm == 'len' and len(e.args) == 1 and not e.keywords:
             t, k = self.expr(e.args[0], env, binds)
-            if k != 'bits':
+            if k not in ELT:
                 raise Refuse(f'len of a {k}')
             return f'(py_len {t})', 'int'
         if nm in ('max', 'min') and len(e.args) == 2 and not e.keywords:
@@ -1051,6 +1363,14 @@ class Translator:
             return t, 'joined'
         if nm in self.fns:
             return self.user_call(e, env, binds)
+        if nm in env and isinstance(env[nm], tuple) and \
+                env[nm][0] == 'localfn' and not e.keywords and \
+                len(e.args) == len(env[nm][1]):
+            args = [self.as_kind(x, env, binds, k)
+                    for x, k in zip(e.args, env[nm][1])]
+            v = self.fresh()
+            binds.append(('bind', v, f'{self.cname(nm)} ' + ' '.join(args)))
+            return v, env[nm][2]
         raise Refuse('call ' + _src(e))
 
     def is_flatten_call(self, e):
@@ -1145,6 +1465,30 @@ class Translator:
             raise Refuse('empty string ' + _src(node))
         if toks[0] == '$':
             return self.buffer_template(toks, node, env, binds), 'buf'
+        if isinstance(toks[0], Hole) and all(isinstance(x, Hole)
+                                              for x in toks):
+            b0 = []
+            t0, k0 = self.expr(toks[0].expr, dict(env), b0)
+            if k0 == 'pystr':
+                # " {op} {x} {y} ": op an operator prefix known at run time
+                op, _ = self.expr(toks[0].expr, env, binds)
+                args = []
+                for h in toks[1:]:
+                    if self.is_flatten_call(h.expr):
+                        t, k = self.flatten_call(h.expr, env, binds)
+                    else:
+                        t, k = self.expr(h.expr, env, binds)
+                    if k != 'fres':
+                        raise Refuse(f'operand {_src(h.expr)} of kind {k} '
+                                     'after a run-time operator')
+                    v = self.fresh()
+                    binds.append(('bind', v, f'px_of_fres {t}'))
+                    args.append(v)
+                self.use_template('{op} A .. (run-time prefix)')
+                v = self.fresh()
+                binds.append(('bind', v, f'py_apply_prefix {op} ['
+                              + '; '.join(args) + ']'))
+                return v, 'form'
         if isinstance(node, ast.Constant) and toks[-1] in ('!', '&', '|', '^'):
             # an operator prefix such as '! ^': a function of the two
             # formulas written after it
@@ -1290,9 +1634,9 @@ class Translator:
             except Refuse as r:
                 self.counter = saved
                 self.note(f'branch starting at line {stmts[0].lineno} is not '
-                          f'translated ({r}); it is the opaque ext_flatten')
+                          f'translated ({r}); it is the opaque ' + self.opaque_name)
                 self.opaque_lines.append(stmts[0].lineno)
-                return 'ext_flatten v_self mem kw'
+                return f'{self.opaque_name} v_self mem0 kw0'
         s, rest = stmts[0], stmts[1:]
         if self.method:
             env = dict(env)
@@ -1301,7 +1645,15 @@ class Translator:
                 isinstance(s.value, ast.Constant) or (
                     isinstance(s.value, ast.Call)
                     and _call_name(s.value) in SKIP_CALLS))
-            if not skip and not isinstance(s, ast.If):
+            pure_local = isinstance(s, ast.Assign) and \
+                len(s.targets) == 1 and (
+                    (isinstance(s.targets[0], ast.Name)
+                     and s.targets[0].id not in env) or
+                    (isinstance(s.targets[0], ast.Tuple) and all(
+                        isinstance(x, ast.Name) and x.id not in env
+                        for x in s.targets[0].elts))) and \
+                isinstance(s.value, (ast.Attribute, ast.Name, ast.Constant))
+            if not skip and not isinstance(s, ast.If) and not pure_local:
                 env['@pristine'] = False
 
         def cont(env2):
@@ -1328,7 +1680,42 @@ class Translator:
             return self.stmt_for(s, env, cont, live)
         if isinstance(s, ast.Pass):
             return cont(env)
+        if isinstance(s, ast.FunctionDef) and self.method and \
+                s.name in self.NESTED:
+            return self.stmt_nested(s, env, cont)
         raise Refuse(f'statement {type(s).__name__}: {_src(s)[:60]}')
+
+    def stmt_nested(self, s, env, cont):
+        """A local function (a closure over the method's variables): a
+        local fun returning option."""
+        params, ret = self.NESTED[s.name]
+        a = s.args
+        if [x.arg for x in a.args] != [p for p, _ in params] or a.vararg or \
+                a.kwarg or a.defaults or a.kwonlyargs or s.decorator_list:
+            raise Refuse(f'local function {s.name}: signature')
+        for n in ast.walk(s):
+            if isinstance(n, ast.Name) and isinstance(n.ctx, ast.Store) and \
+                    n.id in env:
+                raise Refuse(f'local function {s.name} re-binds {n.id}')
+        env2 = {k: v for k, v in env.items() if not k.startswith('@')}
+        for p_, k in params:
+            env2[p_] = k
+        saved = (self.cur, self.method)
+        fn = Fn(f'{self.cur.name}.{s.name}', s)
+        fn.ret = ret
+        self.cur, self.method = fn, None
+
+        def end(env3):
+            raise Refuse(f'{s.name} can fall off the end')
+        try:
+            body = self.block(s.body, env2, set(), end)
+        finally:
+            self.cur, self.method = saved
+        env = dict(env)
+        env[s.name] = ('localfn', tuple(k for _, k in params), ret)
+        ps = ' '.join(self.cname(p_) for p_, _ in params)
+        return (f'let {self.cname(s.name)} := (fun {ps} =>\n{ind(body)}) in\n'
+                + cont(env))
 
     def stmt_expr(self, s, env, cont):
         v = s.value
@@ -1362,6 +1749,16 @@ class Translator:
 
     def stmt_mutate(self, call, env, cont):
         name = call.func.value.id
+        if env.get(name) == 'strs' and call.func.attr == 'append' and \
+                len(call.args) == 1 and not call.keywords:
+            env = dict(env)
+            binds = []
+            t, k = self.expr(call.args[0], env, binds)
+            if k != 'pystr':
+                raise Refuse(f'append of a {k} to {name}')
+            c = self.cname(name)
+            binds.append(('let', c, f'{c} ++ [{t}]'))
+            return wrap(binds, cont(env))
         if env.get(name) != 'bits':
             raise Refuse(f'{call.func.attr} on {name} of kind '
                          f'{env.get(name)}')
@@ -1436,6 +1833,11 @@ class Translator:
                 len(t.args) == 2 and isinstance(t.args[0], ast.Name) and \
                 isinstance(t.args[1], ast.Name):
             k = env.get(t.args[0].id)
+            if k == 'fres' and t.args[1].id in ('str', 'list'):
+                c = f'(is_bits {self.cname(t.args[0].id)})'
+                if t.args[1].id == 'str':
+                    c = f'(negb {c})'
+                return wrap([('guard', c)], cont(env))
             want = {'list': ('bits',), 'str': ('bit', 'opstr', 'buf'),
                     'int': ('int',)}.get(t.args[1].id)
             if want and k in want:
@@ -1470,6 +1872,18 @@ class Translator:
             self.note(f'`{_src(s)[:70]}` skipped: {tgt.id} is read only by '
                       'logging')
             return cont(env)
+        if self.method and isinstance(tgt, ast.Tuple) and all(
+                isinstance(x, ast.Name) for x in tgt.elts):
+            b0 = []
+            t0, k0 = self.expr(s.value, dict(env), b0)
+            if k0 == 'nodes' and not b0:
+                env = dict(env)
+                names = []
+                for x in tgt.elts:
+                    env[x.id] = 'node'
+                    names.append(self.cname(x.id))
+                return (f'match {t0} with\n| [' + '; '.join(names)
+                        + f'] =>\n{ind(cont(env))}\n| _ => None\nend')
         env = dict(env)
         binds = []
         if self.method and isinstance(tgt, ast.Name) and \
@@ -1524,7 +1938,10 @@ class Translator:
         env = dict(env)
         binds = []
         if s.value is None:
-            raise Refuse('bare return')
+            if fn.ret != 'unit' or self.method:
+                raise Refuse('bare return')
+            return 'Some ' + tup(['tt'] + [self.cname(m)
+                                           for m in fn.mutated])
         if isinstance(s.value, ast.Call) and _call_name(s.value) in self.fns:
             t, k = self.user_call(s.value, env, binds, allow_mut=True)
         elif self.is_flatten_call(s.value):
@@ -1532,6 +1949,10 @@ class Translator:
         else:
             t, k = self.expr(s.value, env, binds)
         if self.method:
+            if k == 'strs':
+                t, k = self.convert(t, k, 'bits', s.value, env, binds), 'bits'
+            if k == 'pystr':
+                t, k = self.convert(t, k, 'bit', s.value, env, binds), 'bit'
             t = coerce(t, k, 'fres')
             st = env.get('@state:mem') or coerce(self.cname('mem'),
                                                  env['mem'], 'optbits')
@@ -1553,6 +1974,40 @@ class Translator:
         return wrap(binds, f'Some {tup(out)}')
 
     def stmt_if(self, s, rest, env, live_after, kont):
+        if not self.method or env.get('@in_late'):
+            return self.stmt_if_(s, rest, env, live_after, kont)
+        saved = self.counter
+        try:
+            return self.stmt_if_(s, rest, env, live_after, kont)
+        except Refuse as first:
+            # a branch of a method that cannot be translated: on that path
+            # the result is what the real method returns on the ORIGINAL
+            # arguments (the path condition is a function of them): the
+            # external function applied to mem0, kw0
+            self.counter = saved
+            env = dict(env)
+            binds = []
+            c = self.as_bool(s.test, env, binds)
+            out = []
+            for stmts in (s.body, s.orelse):
+                try:
+                    e2 = dict(env)
+                    out.append(self.block(list(stmts) + list(rest), e2,
+                                          live_after, kont))
+                except Refuse as r:
+                    ln = stmts[0].lineno if stmts else s.lineno
+                    self.note(f'branch starting at line {ln} is not '
+                              f'translated ({r}); on that path the result '
+                              f'is the opaque {self.opaque_name} on the '
+                              'original arguments')
+                    self.opaque_lines.append(ln)
+                    out.append(f'{self.opaque_name} v_self mem0 kw0')
+            if all(o.startswith(self.opaque_name + ' ') for o in out):
+                raise first
+            return wrap(binds, f'if {c} then\n{ind(out[0])}\nelse\n'
+                        f'{ind(out[1])}')
+
+    def stmt_if_(self, s, rest, env, live_after, kont):
         nt = self.none_test(s.test, env)
         if nt and (terminates(s.body) and terminates(s.orelse)):
             name, is_none = nt
@@ -1659,9 +2114,14 @@ class Translator:
         env = {p: k for p, k, _ in fn.params}
 
         def end(env2):
+            if fn.ret == 'unit':
+                return 'Some ' + tup(['tt'] + [self.cname(m)
+                                               for m in fn.mutated])
             raise Refuse(f'{fn.name}: control can fall off the end '
                          '(returns None)')
+        self.strmode = fn.name in LEAF_SIGNATURES
         body = self.block(fn.node.body, env, set(), end)
+        self.strmode = False
         ret = [coq_type(fn.ret)] + [coq_type(dict(
             (p, k) for p, k, _ in fn.params)[m]) for m in fn.mutated]
         rtype = 'option (' + ' * '.join(ret) + ')' if len(ret) > 1 \
@@ -1686,6 +2146,15 @@ class Translator:
         self.done.append(fn.name)
         return text
 
+    def read_opmap(self):
+        for n in self.tree.body:
+            if isinstance(n, ast.ClassDef) and n.name == 'Nodes':
+                for st in n.body:
+                    if isinstance(st, ast.Assign) and \
+                            getattr(st.targets[0], 'id', None) == 'opmap':
+                        return ast.literal_eval(st.value)
+        raise Refuse('Nodes.opmap literal not found')
+
     def find_methods(self):
         """flatten methods of the classes inside `class Nodes`."""
         found = {}
@@ -1705,16 +2174,16 @@ class Translator:
         if a.kwonlyargs or a.posonlyargs or not a.vararg or not a.kwarg or \
                 names[:1] != ['self']:
             raise Refuse(f'Nodes.{cls}.flatten: unsupported signature')
-        if names == ['self', 'mem']:
-            if len(a.defaults) != 1 or not (
-                    isinstance(a.defaults[0], ast.Constant)
-                    and a.defaults[0].value is None):
-                raise Refuse(f'Nodes.{cls}.flatten: default of mem')
-            explicit = True
-        elif names == ['self']:
-            explicit = False
-        else:
-            raise Refuse(f'Nodes.{cls}.flatten: parameters {names}')
+        named = names[1:]
+        if any(n not in ('prime', 'mem', 't', 'defs') for n in named) or \
+                len(set(named)) != len(named) or \
+                len(a.defaults) != len(named) or not all(
+                    isinstance(d, ast.Constant) and d.value is None
+                    for d in a.defaults):
+            raise Refuse(f'Nodes.{cls}.flatten: parameters {names} (named '
+                         'parameters must be among prime, mem, t, defs and '
+                         'default to None)')
+        explicit = 'mem' in named
         for n in ast.walk(node):
             if isinstance(n, (ast.Lambda, ast.Global, ast.Nonlocal, ast.Yield,
                               ast.YieldFrom, ast.Try, ast.With, ast.While,
@@ -1743,18 +2212,37 @@ class Translator:
                       'and is passed on with it (every flatten method '
                       'defaults mem to None, so absent = None)')
         env = {'mem': 'optbits', a.kwarg.arg: 'kwargs', '@pristine': True}
+        pre = ''
+        for n, fld, k in (('prime', 'k_prime', 'optbool'),
+                          ('t', 'k_t', 'opttable'),
+                          ('defs', 'k_defs', 'optdefs')):
+            if n in named:
+                env[n] = k
+                pre += f'let {self.cname(n)} := {fld} kw in\n'
+        if pre:
+            self.note('the named parameters ' + ', '.join(
+                n for n in named if n != 'mem') + ' are taken out of **kw '
+                '(record fields); the rest of **kw is passed on unchanged')
 
         def end(env2):
             raise Refuse(f'Nodes.{cls}.flatten can fall off the end')
+        self.strmode = cls in self.LEAF_METHODS
+        self.opaque_name = 'def_flatten' if cls == 'Var' else 'ext_flatten'
         body = self.block(node.body, env, set(), end)
+        self.strmode = False
+        self.opaque_name = 'ext_flatten'
         kwn = self.cname(a.kwarg.arg)
+        body = 'let mem0 := mem in\nlet kw0 := kw in\n' + pre + body
         if kwn != 'kw':
             body = f'let {kwn} := kw in\n' + body
         self.cur = None
         self.method = None
         return body
 
-    METHODS = ('Arithmetic', 'Comparator', 'Operator', 'Unary')
+    METHODS = ('Arithmetic', 'Comparator', 'Operator', 'Unary', 'Binary',
+               'Var', 'Num', 'Bool')
+    LEAF_METHODS = ('Var', 'Num', 'Bool')
+    NESTED = {'make_bit': ([('b', 'pystr')], 'pystr')}
 
     def run_methods(self):
         found = self.find_methods()
@@ -1781,18 +2269,24 @@ class Translator:
         text = '''
 (* ---- the flatten methods that thread the memory buffer ---- *)
 Section Flatten.
-(* **kw without mem: prime, t, defs, ... only passed on; kw.update(prime=True) *)
-Variable kwargs : Type.
-Variable kw_set_prime : kwargs -> kwargs.
+(* the dictionary `defs` of operator definitions stays abstract: only
+   `name in defs` is read by the translated code *)
+Variable defs : Type.
+Variable defs_mem : defs -> string -> bool.
+(* numbering of the bit names (a name is one token of prefix syntax) *)
+Variable var_id : string -> nat.
 (* the flatten methods that are not translated, and the branches of the
    translated ones that are left opaque (see the notes) *)
-Variable ext_flatten : pnode -> option (list bx) -> kwargs
+Variable ext_flatten : pnode -> option (list bx) -> kwargs defs
+                       -> option (fres * option (list bx)).
+(* the branch of Nodes.Var.flatten that expands a definition (name in defs) *)
+Variable def_flatten : pnode -> option (list bx) -> kwargs defs
                        -> option (fres * option (list bx)).
 
 (* x.flatten(mem=m, *arg, **kw): dispatch on the class of x; returns the
    result and the final state of the list passed as mem *)
 Fixpoint g_flatten (fuel : nat) (v_self : pnode) (mem : option (list bx))
-    (kw : kwargs) {struct fuel} : option (fres * option (list bx)) :=
+    (kw : kwargs defs) {struct fuel} : option (fres * option (list bx)) :=
   match fuel with
   | O => None
   | S fuel =>
@@ -1816,7 +2310,19 @@ End Flatten.
         for name in self.order:
             out.append(self.function(self.fns[name]))
         if self.with_methods:
-            out.append(self.run_methods())
+            m = self.run_methods()
+            if self.used_opmap:
+                om = self.read_opmap()
+                out.append(
+                    f'(* {SRC}: Nodes.opmap *)\nDefinition g_opmap : list '
+                    '(string * string) := [\n' + ';\n'.join(
+                        f'  ({self.slit(k)}, {self.slit(v)})'
+                        for k, v in om.items()) + '].\n')
+            if self.prime_const is not None:
+                out.append('(* omega/logic/syntax.py: PRIME *)\n'
+                           f'Definition g_PRIME : string := '
+                           f'{self.slit(self.prime_const)}.\n')
+            out.append(m)
         consts = ''.join(
             f'(* {SRC}: module constant *)\n'
             f'Definition g_{c} : Z := {self.zlit(self.consts[c])}.\n\n'
@@ -1833,9 +2339,9 @@ HEADER = '''(* GENERATED on every run by tools/py2coq_bitvector.py from
    %(src)s (tie T for C06).  Do not edit.
    Python ints are Z, lists of bit formulas are [list bx], exceptions are
    [None]; see coq/theories/L1Circuits/PyBits.v. *)
-From Coq Require Import ZArith List Bool String.
+From Coq Require Import ZArith List Bool String Ascii.
 From Omega Require Import L1Circuits.Circuits L1Circuits.Deep L1Circuits.PyBits
-  L2Compile.Thread.
+  L1Circuits.PyStr L2Compile.Thread.
 Import ListNotations.
 Open Scope Z_scope.
 
